@@ -1,5 +1,6 @@
 """C05 -- responses are protocol-valid and length-consistent on both server
 interfaces (DESIGN section 4, C05)."""
+import asyncio
 import http
 import io
 import json
@@ -22,7 +23,7 @@ RULE = ('one workload = one generated responder (status as int / status line wit
         'Content-Type, cookies, extra headers, optional Response subclass overriding render_body) x request method '
         'x server interface (WSGI with or without wsgi.file_wrapper, ASGI) x stream block size 1..16; its fault '
         'sweep = one run per fault point: response stream raises at read/next i, yields empty/None at i, ASGI '
-        'send() fails at send j, WSGI server abandons iteration after chunk j, client disconnects during SSE; '
+        'send() fails at send j, the app task is cancelled inside send j, WSGI server abandons iteration after chunk j, client disconnects during SSE; '
         'non-trivial = a body source was set or a fault fired; distinct = distinct (plan, fault, schedule) triples')
 COMPONENTS = {
     'real': ['falcon.App.__call__/_get_body', 'falcon.asgi.App.__call__ response emission', 'Response.render_body '
@@ -258,6 +259,7 @@ def run(ctx):
     ctx.draw_fault_site(limit=63)
     fault = None
     send_fail = None
+    send_cancel = None
     abandon = None
     sse_disc = False
     if spec['stream']:
@@ -279,11 +281,14 @@ def run(ctx):
         for j in range(min(n_sends, 8)):
             if ctx.opportunity('send_fails'):
                 send_fail = j
+        for j in range(min(n_sends, 8)):
+            if ctx.opportunity('send_cancelled'):
+                send_cancel = j
         if spec['sse'] and ctx.opportunity('sse_client_disconnects'):
             sse_disc = True
     send_suspends = bool(ch.draw(2, 'send_suspends')) if asgi else False
     ctx.plan = {'iface': ['wsgi', 'wsgi+file_wrapper', 'asgi'][iface], 'spec': spec,
-                'fault': list(fault) if fault else None, 'send_fail': send_fail, 'abandon': abandon,
+                'fault': list(fault) if fault else None, 'send_fail': send_fail, 'send_cancel': send_cancel, 'abandon': abandon,
                 'sse_disconnect': sse_disc}
     ctx.plan_key = json.dumps(ctx.plan, sort_keys=True)
     cnt = Counter()
@@ -376,12 +381,18 @@ def run(ctx):
                     send_suspends=send_suspends, lost_mode='drop' if sse_disc else 'oserror')
         if send_fail is not None:
             conn.fail_send_at = frozenset([send_fail])
+        if send_cancel is not None:
+            conn.cancel_send_at = frozenset([send_cancel])
         env.conn = conn
         result = {}
 
         async def driver():
             try:
                 await app(scope, conn.receive, conn.send)
+            except asyncio.CancelledError:
+                if not conn.send_cancelled:
+                    raise
+                result['cancelled'] = True
             except Exception as ex:
                 result['exc'] = ex
 
@@ -405,7 +416,7 @@ def run(ctx):
         started = mon.state != 'init'
         complete = mon.state == 'done'
         viol = mon.violations
-        faulted = conn.send_failed or cnt.raised or sse_disc
+        faulted = conn.send_failed or cnt.raised or sse_disc or conn.send_cancelled
         if not finished:
             ctx.violate('resp.hang', 'app did not return (plan %r)' % (ctx.plan,))
             return
@@ -437,7 +448,7 @@ def run(ctx):
             ctx.probe('abandoned')
         if ex.iter_error is not None and not isinstance(ex.iter_error, StreamBroken):
             ctx.violate('resp.iter_error', 'iterating the response raised %r' % (ex.iter_error,))
-    ctx.sched_key += '|%r|%r|%r' % (fault, send_fail, abandon)
+    ctx.sched_key += '|%r|%r|%r|%r' % (fault, send_fail, abandon, send_cancel)
     for oid, msg in viol:
         ctx.violate(oid, msg, iface=ctx.plan['iface'])
     ctx.event('resp', status, len(body), cnt.calls, cnt.closes, started, complete)
@@ -549,7 +560,8 @@ def run(ctx):
     if spec['stream'] is not None and spec['stream']['kind'] in ('gen', 'iter_obj', 'file', 'aiter_obj',
                                                                  'aiter_none', 'afile'):
         if cnt.calls > 0 and cnt.closes != 1:
-            why = 'stream_raised' if cnt.raised else 'send_failed' if (asgi and conn.send_failed) else \
+            why = 'stream_raised' if cnt.raised else 'send_cancelled' if (asgi and conn.send_cancelled) else \
+                'send_failed' if (asgi and conn.send_failed) else \
                 'abandoned' if abandon is not None else 'completed'
             ctx.violate('resp.stream_close_count', 'streaming began (%d reads) but close() was called %d times '
                         '(%s, stream kind %s)' % (cnt.calls, cnt.closes, why, spec['stream']['kind']),
